@@ -108,6 +108,10 @@ def corpus():
         # an error that cannot be pickled is recorded through the Exception(repr(error)) fallback, and still propagates as itself
         "unpicklable-leaf": L.busy(1),
         "unpicklable-deep": {"result": L.pair([L.inc(1), L.busy(2)], 3)},
+        "unpicklable-lambda-leaf": L.busy_lambda(4),                                    # pickle: PicklingError
+        "unpicklable-lambda-deep": {"result": L.pair([L.inc(1), L.busy_lambda(5)], 3)},
+        "unpicklable-local-leaf": L.busy_local(6),                                      # pickle: AttributeError
+        "unpicklable-local-deep": L.add(L.inc(L.busy_local(7)), b=L.inc(1)),
         "success": L.add(L.inc(1), b=L.twice(3)),
         "caught": L.guard(2, 2),
     }
@@ -277,6 +281,7 @@ def flush_lookups(ctx, pending):
 FORKERS = ("ev.fork_", "ev.forker")
 SAME_SCHED = ("in-list", "two-different", "same-call-twice", "same-call-twice-seq", "caught-then-uncaught", "deep", "map-element")
 CPU_BUDGET_QUICK, CPU_BUDGET_THOROUGH = 5.0, 330.0       # seconds of process CPU for the generated stream (not wall clock)
+PICKLING = "C12-picklingerror-escapes-error-recording"
 STALE = "C12-stale-completion-event-crashes-next-execution"
 SUBRUN_REPLAY = "C12-failure-under-extended-subrun-replayed-from-cache"
 
@@ -435,7 +440,8 @@ def run_same_scheduler(ctx, G, R, name, expr, sx, reply, seed):
     for k, o in ((1, o1), (2, o2)):
         if o in outs or has_unk:
             continue
-        sig = STALE if (k == 2 and left and o[0] == "err" and o[1] == "KeyError" and o[2].startswith("!(Job(")) else \
+        sig = PICKLING if (o[0] == "err" and o[1] == "PicklingError") else \
+            STALE if (k == 2 and left and o[0] == "err" and o[1] == "KeyError" and o[2].startswith("!(Job(")) else \
             "C12-same-scheduler-outcome-differs"
         case = {"program": name, "expr": sx, "execution": k, "schedule_seed": seed, "same_scheduler": True, "stale_completions": left}
         ctx.mismatch("outcome of execution %d on a reused Scheduler is not among the outcomes the rules allow" % k, case=case,
@@ -471,6 +477,7 @@ def run_two(ctx, G, R, name, expr, sx, reply, seed, pending, probe_all=False):
     all_log = logs[0].log + logs[1].log
     exec_ids = [x for x in eids if x]
     # (a) outcome admissible
+    skip_rows = set()
     for k, o in enumerate(outcomes, 1):
         if o in outs:
             continue
@@ -478,7 +485,10 @@ def run_two(ctx, G, R, name, expr, sx, reply, seed, pending, probe_all=False):
             ctx.count("inconclusive", "model-unk")
             continue
         kinds = {x[0] for x in outs}
-        if o[0] == "ok" and kinds == {"err"}:
+        if o[0] == "err" and o[1] == "PicklingError":
+            sig = PICKLING
+            skip_rows.add(k)
+        elif o[0] == "ok" and kinds == {"err"}:
             sig = "C12-failure-swallowed"
         elif o[0] == "err":
             sig = "C12-wrong-error-raised"
@@ -491,7 +501,7 @@ def run_two(ctx, G, R, name, expr, sx, reply, seed, pending, probe_all=False):
                       expected=sorted(map(G.show, outs)), actual=G.show(o))
     # (b) FAILED rows along the failing path
     for k, o in enumerate(outcomes, 1):
-        if o[0] != "err":
+        if o[0] != "err" or k in skip_rows:
             continue
         if eids[k - 1] is None:
             ctx.violation("C12-no-execution-row", "a failed run did not record exactly one Execution",
